@@ -64,6 +64,19 @@ def run(tier, t0):
                         ok = False
         if not ok:
             res.violation('C07.2', 'C07.2|assign', ev, ev.line, '`=` must pop rhs then lhs (a variable); Undef removes the variable, anything else stores rhs.into_int()')
+        # ... on every path: once both operands are popped, the next token is reached only through the remove or the insert
+        # (reading the right-hand side first, so that an undefined variable fails the record); no shortcut past them
+        if e and len(e['pops']) == 2:
+            res.rule('C07.2', 1)
+            eff = [b for b, nm, t in e['calls'] if nm.endswith('HashMap::remove') or nm.endswith('HashMap::insert')]
+            start = max(e['pops'], key=lambda b: len(ev.dom_chain(b)))
+            loops = [(len(body), h) for h, body in ev.loops().items() if start in body]
+            if not loops or not eff:
+                res.error('C07.2', 'the token loop or the effects of `=` were not found')
+            else:
+                h = min(loops)[1]
+                if h in ev.reachable_from(list(ev.succ[start]), avoid=eff):
+                    res.violation('C07.2', 'C07.2|assign-skip', ev, ev.blocks[start]['t'].get('line'), 'after popping both operands of `=` the next token can be reached without removing or storing the variable: such a shortcut neither reads the right-hand side (an undefined variable must fail the record) nor assigns')
         res.rule('C07.2', 1)
         e = tab.get('.undef')
         if not e or len(e['pushes']) != 1 or 'WinVal::Undef' not in show(e['pushes'][0][1]):
